@@ -160,11 +160,13 @@ where
             extensions,
             ..
         } = parts;
-        let headers = Header::request(method, uri, headers, extensions).map_err(|_e| {
-            self.handle_connection_error_on_stream(InternalConnectionError {
+        // A request which can not be encoded is refused before anything is sent:
+        // this is an error of this request only, the connection and the other requests are not affected.
+        let headers = Header::request(method, uri, headers, extensions).map_err(|e| {
+            StreamError::StreamError {
                 code: Code::H3_INTERNAL_ERROR,
-                message: "Failed to build request headers".to_string(),
-            })
+                reason: format!("Failed to build request headers: {}", e),
+            }
         })?;
 
         //= https://www.rfc-editor.org/rfc/rfc9114#section-4.1
